@@ -104,6 +104,10 @@ def correspond(ctx):
     out = {'n': res['n'], 'agree': res['agree'], 'failing': res['failing'], 'errors': res['errors'], 'distribution': dist,
            'samples': meta[:2], 'kinds': {'kernels': 0, 'hand_models': 5}}
     if res['failing']: out['first_disagreement'] = [meta[i] for i in res['failing'][:3]]
+    # the same loops as REGENERATED from the source (Gen/Sample.v; equal to the hand model by Proofs/Bridge2.v), bit for bit incl. exceptions
+    kernels.merge_cross_check(out, 'C16', ['Line_sample', 'Line_regularSampleTValue', 'Quad_sample', 'Quad_regularSampleTValue', 'Quad_regularSample', 'Cubic_sample',
+                                           'Cubic_regularSampleTValue', 'Cubic_regularSample', 'Path_length', 'Path_pointAtTime', 'Path_lengthAtTime', 'Path_sample',
+                                           'Path_regularSampleTValue', 'Path_regularSample'], ctx.n(12, 150), ctx.rng)
     return out
 
 
@@ -321,6 +325,16 @@ def search(ctx):
         ev += 1; dist['stale-state/path-round'] = dist.get('stale-state/path-round', 0) + 1
         if a != b: fails.append({'class': 'C16-stale-state', 'what': f'after length queries and round(), (length, lengthAtTime(1.0), lengthAtTime(0.5)) = {a} but a fresh path with the same segments gives {b}',
                                  'input': None, 'observed': [a, b], 'expected': 'equal'})
+    # path-level stale state: asking must not change later answers, and an in-place edit of a segment through the path's own
+    # segment list (or of its Point objects) must be seen by the next query
+    import gen as _gq
+    from beziers.point import Point as _PQ
+    for _ in range(ctx.n(25, 500)):
+        _segs = _gq.closed_contour(rng, ints=rng.random() < 0.3)
+        _qp = _PQ(_segs[0][0].x + rng.uniform(-150, 150), _segs[0][0].y + rng.uniform(-150, 150))
+        _ff = _gq.path_freshness(rng, _segs, {'length': lambda p: p.length, 'lengthAtTime(1.0)': lambda p: p.lengthAtTime(1.0), 'lengthAtTime(0.37)': lambda p: p.lengthAtTime(0.37), 'pointAtTime(0.61)': lambda p: p.pointAtTime(0.61)}, closed=True, disturb=[lambda p: p.pointIsInside(_qp), lambda p: p.bounds(), lambda p: p.length, lambda p: p.area])
+        ev += 1; dist['stale-state/path'] = dist.get('stale-state/path', 0) + 1
+        if _ff: fails.append({'class': 'C16-stale-state', 'what': _ff[0], 'input': None, 'observed': _ff[:3], 'expected': 'the answers of a freshly built path with the same control points'})
     return {'evaluations': ev, 'distinct_nontrivial': len(seen), 'failures': fails, 'distribution': dist, 'samples': samples, 'measured': measured}
 
 
